@@ -2,6 +2,7 @@ import DaskModel.Lemmas.Repart
 import DaskModel.Lemmas.Truthful
 import DaskModel.Lemmas.RepartDivs
 import DaskModel.Lemmas.RepartSize
+import DaskModel.Lemmas.RepartWalk
 import DaskModel.Props.C45
 /-! # C44 — repartitioning preserves rows, order and requested layout (theorems) -/
 namespace Dask.C44
@@ -213,9 +214,7 @@ open Dask.Divs (Truthful ValidDivs)
 
 /-- FULL STATEMENT for `repartition(divisions = b)` — rows, order and divisions exactly `b`, for frames whose
     partitions are in index order (`KeySorted`; every frame dask builds with known divisions from sorted data).
-    Proved below for every layer that passes the certificate `layerOK` (`divisions_rows_order_truthful_partial`);
-    what is still missing for the full statement is "`divisionsLayer` only ever returns certified layers" — the
-    certificate is evaluated by the harness on every layer the real `_layer()` builds. -/
+    Proved below: `divisions_rows_order_truthful` (together with totality: `divisions_total`). -/
 def DivisionsFullStatement : Prop :=
   ∀ (α : Type) (key : α → Nat) (parts : List (List α)) (a b : List Nat) (force : Bool) (out : List (List α)),
     ValidDivs a → ValidDivs b → Truthful key a parts → (∀ p ∈ parts, KeySorted key p) →
@@ -245,7 +244,41 @@ theorem divisions_order_needs_sorted_partitions :
   revert this
   decide
 
-/-- **rows, order and truthful divisions — `_partial`: certified layers.** For every frame that is truthful for
+/-- **`repartition(divisions = b)` keeps rows and order and yields exactly divisions `b` — full statement.**
+    Proof: loop invariants for both walks of `RepartitionDivisions._layer` (`Lemmas/RepartWalk.lean`: `W1Inv`,
+    `walk1_total`, `tail_total`, `end_facts`; `Lemmas/RepartWalk2.lean`: `walk2_spec`), a semantic invariant on the
+    evaluated pieces (`sem_step`, `sem_next`, `close_last`), for the code as repaired in /repo 5d1a6bb. -/
+theorem divisions_rows_order_truthful : DivisionsFullStatement := by
+  intro α key parts a b force out hva hvb ht hsorted h
+  have f : FrameOK key a parts := ⟨ht, hsorted, hva⟩
+  -- the guards passed, otherwise no layer
+  have hg : ∃ g, dlGuards a b force = some g := by
+    unfold repartitionDivisions divisionsLayer at h
+    cases hgd : dlGuards a b force with
+    | none => simp [hgd] at h
+    | some g => exact ⟨g, rfl⟩
+  obtain ⟨g, hg⟩ := hg
+  obtain ⟨out', h1, h2, h3⟩ := divisions_walk_correct f hvb hg
+  rw [h] at h1
+  cases h1
+  exact ⟨h2, h3⟩
+
+/-- **totality**: whenever the ValueError guards of `_layer` accept the division vectors (`force`: `b[0] ≤ a[0]` and
+    `a[-1] ≤ b[-1]`; otherwise equal ends), the two walks finish without IndexError / KeyError, within the model's
+    fuel, and the layer evaluates (every key it refers to exists). -/
+theorem divisions_total {α : Type} (key : α → Nat) (parts : List (List α)) (a b : List Nat) (force : Bool)
+    (hva : ValidDivs a) (hvb : ValidDivs b) (ht : Truthful key a parts) (hsorted : ∀ p ∈ parts, KeySorted key p)
+    (g : Nat × Nat × Nat × Nat) (hg : dlGuards a b force = some g) :
+    ∃ out, repartitionDivisions key parts a b force = some out := by
+  obtain ⟨out, h1, _, _⟩ := divisions_walk_correct (key := key) ⟨ht, hsorted, hva⟩ hvb hg
+  exact ⟨out, h1⟩
+
+example : dlGuards [0, 3, 3, 5] [0, 2, 4, 5] false = some (0, 5, 5, 4) := by decide
+example : dlGuards [5, 10] [0, 2, 10, 12] true = some (0, 10, 12, 10) := by decide
+example : dlGuards [5, 10] [6, 10] true = none := by decide
+
+/-- **rows, order and truthful divisions for certified layers** (kept: the certificate is what the harness evaluates
+    on every layer the REAL `_layer()` builds, independently of the model of the walks). For every frame that is truthful for
     the old divisions `a` with partitions in index order, every new division vector `b` (non-decreasing), and every
     layer `L` that `RepartitionDivisions._layer` returns and that passes the decidable certificate `layerOK a b L`
     (each piece used exactly once and in order; the slices of each old partition form a gap-free chain over its key
